@@ -278,4 +278,13 @@ func neighbourOps(c *props.Ctx, cfg eng.ShapeConfig) {
 	c.R.Floor("NEIGH-2", 3)
 	c.R.Floor("NEIGH-3", 4)
 	c.R.Floor("NEIGH-4", 2)
+	c.R.Floor("NEIGH-5", 2)
+	// box crop: keep decision over the finite set of orderings
+	if fn := p.Func("modeling/meshops", "CropFloat3Attribute"); fn == nil {
+		c.R.Failf("anchor meshops.CropFloat3Attribute not found")
+	} else {
+		reportShape(c, fn, eng.AnalyseBoxKeep(fn, cfg), nil)
+	}
+	c.R.Floor("CROP-1", 1)
+	c.R.Floor("CROP-2", 1)
 }
